@@ -20,11 +20,16 @@ LEAN_MODULES = ["Proofs.C03.Deribit"]
 DRIVERS = ["driver_deribit"]
 RULE = ("[deribit] sequences of 1-10 operations on one frozen book with bids <= mark <= asks (25 % of the sides as unsorted rows with repeated "
         "prices; 35 % of the books with an ask exactly on multiple x mark and a bid exactly on mark / multiple, bought / sold with that multiple "
-        "and amounts reaching into the tie level); buckets = (operation, amount class incl. zero / negative / "
+        "and amounts reaching into the tie level; 15 % of the books with a deep instrument whose mark is a few fee steps small and mostly OFF "
+        "the fee grid (0.0000016, 0.0000235 ...), best ask / best bid on or next to the raw mark (30 % of them with every price on the fee grid), plus two directed sequences with mark = ask = "
+        "0.0000016 / mark = bid = 0.0000014); buckets = (operation, amount class incl. zero / negative / "
         "exact holding / holding+1 / x10 / whole wallet / whole cash, pricing mode, outcome, open or closed bar)")
 TRUSTED = ["float arithmetic of order-book sizes reproduced with Lean Float in the driver; value theorems are stated for exact arithmetic (DCtx.exact)"]
-ASSUMPTIONS = ["order-book data constrained so bids <= mark <= asks (property text) with prices >= 0.0005, so the 1e-6 rounding of mark in the valuation "
-               "is below the trade fee", "instrument names unique, sizes non-negative"]
+ASSUMPTIONS = ["order-book data constrained so bids <= mark <= asks on the RAW mark (property text); the value theorems need in addition that the mark "
+               "is a multiple of the fee step (MarkOnGrid: the valuation rounds the mark to 1e-6 ETH / 1e-8 BTC) or that every book price is one "
+               "(PricesOnGrid, what the exchange's tick size gives) - with mark and a price off the grid the code gains up to "
+               "half a fee step per contract (known finding deribit.buy/sell.value-created.offgrid-mark-*, visible for marks below about 4e-6 "
+               "where the rounding beats the 12.5 % fee cap)", "instrument names unique, sizes non-negative"]
 
 DUST = Fraction(1, 100000)
 TOL = Fraction(1, 10 ** 25)
@@ -36,11 +41,97 @@ def account_value(rig: L.Rig, price: Decimal):
     return Fraction(st.net_value) / Fraction(price)     # in units of the option market's token
 
 
+def round_half_up(x: Fraction, exp: int) -> Fraction:
+    """x rounded half-up (away from zero on a tie) to a multiple of 10**exp - what round_decimal(x, exp) is, in exact arithmetic"""
+    step = Fraction(10) ** exp
+    q = abs(x) / step
+    n = q.numerator // q.denominator
+    if 2 * (q - n) >= 1:
+        n += 1
+    return (n if x >= 0 else -n) * step
+
+
+def offgrid_gain(t, op, res, book, token, gain, tol):
+    """Is the rise of the account value `gain` of an accepted buy / sell fully explained by the valuation rounding an off-grid mark?
+    Yes only if (a) the instrument's raw mark is not a multiple of the fee step, (b) every fill respects the frozen constraint against the RAW mark
+    (buy price >= mark, sell price <= mark), (c) the rise is exactly what the trade's own numbers give with the position booked at round(mark):
+    sum amount x (round(mark) - price) - fee for a buy (mirrored for a sell) - nothing else contributes - and (d) with the position booked at the raw
+    mark instead nothing would be gained: gain <= sum amount x |round(mark) - mark|.  Returns the explanation or None."""
+    if t not in ("buy", "sell") or not isinstance(res, dict):
+        return None
+    row = next((i for i in book if i["name"] == op["name"]), None)
+    if row is None or row["mark"] == "nan":
+        return None
+    mark = row["mark"]                                    # exact value of the float in the frame
+    rm = round_half_up(mark, L.TOKEN_STEP[token][1])
+    if rm == mark:
+        return None
+    sign = 1 if t == "buy" else -1
+    fills = res["fills"]
+    if not all(sign * (float(p) - float(mark)) >= 0 for p, _ in fills):
+        return None
+    amount = sum((a for _, a in fills), Fraction(0))
+    expected = sum((a * sign * (rm - p) for p, a in fills), Fraction(0)) - res["fee"]
+    # the valuation reads the float's exact binary value, order prices are read through str(float): a level ON the mark is the same float, so the
+    # mark the fills are measured against is the one of the two readings that is nearer to the level
+    mark_s = Fraction(Decimal(repr(float(mark))))
+    rounding = amount * max(sign * (rm - mark), sign * (rm - mark_s))
+    if abs(gain - expected) > tol or rounding <= 0 or gain > rounding + tol:
+        return None
+    return (f"mark {float(mark)!r} is valued at round(mark) = {Decimal(rm.numerator) / Decimal(rm.denominator)}: "
+            f"{L.fmt(amount)} contracts x |round(mark) - mark| = {float(rounding):.10g} of rounding, fee {float(res['fee']):.10g}")
+
+
+def gen_tiny_instr(rng, idx, token, now):
+    """a deep instrument worth a few fee steps whose mark is (mostly) NOT a multiple of the fee step: k tenths of a step.  Best ask / best bid sit on
+    the raw mark or a few tenths of a step away; bids <= mark <= asks holds on the raw numbers."""
+    e = L.TOKEN_STEP[token][1] - 1                        # a tenth of the fee step
+    px = lambda k: float(f"{k}e{e}")                      # noqa: E731 - the float that prints as that decimal
+    k = rng.choice((14, 15, 16, 24, 25, 26, 34, 35, 36, 44, 45, 46, rng.randint(1, 99), rng.randint(1, 99), rng.randint(100, 4999), 20, 30))
+    size = lambda: rng.choice((1000, 5000, 20000, float(rng.randint(100, 100000)), rng.randint(100, 100000)))  # noqa: E731
+    asks, bids = [], []
+    ticks = rng.random() < 0.3                            # every PRICE on the fee grid, the mark anywhere between them (PricesOnGrid): no gain possible
+    ka = k + rng.choice((0, 0, 0, 1, 2, 5))
+    kb = k - rng.choice((0, 0, 0, 1, 2, 5))
+    if ticks:
+        ka, kb = -(-ka // 10) * 10, kb // 10 * 10
+    for _ in range(rng.choice((1, 1, 2, 3))):
+        asks.append([px(ka), size()])
+        ka += rng.choice((10, 20, 50)) if ticks else rng.choice((1, 3, 10, 25))
+    for _ in range(rng.choice((1, 1, 2, 3))):
+        if kb <= 0:
+            break
+        bids.append([px(kb), size()])
+        kb -= rng.choice((10, 20, 50)) if ticks else rng.choice((1, 3, 10, 25))
+    kind = rng.choice(("CALL", "PUT"))
+    strike = rng.choice(range(1000, 3001, 50))
+    return {"name": f"{token}-D{idx}-{strike}-{'C' if kind == 'CALL' else 'P'}", "state": "open", "kind": kind, "strike": strike,
+            "expiry": now + rng.choice((60, 600, 30000)), "mark": px(k), "underlying": round(rng.uniform(1200, 2600), 2),
+            "delta": round(rng.uniform(-1, 1), 5), "gamma": round(rng.uniform(0, 0.01), 5), "asks": asks, "bids": bids, "tiny": "ticks" if ticks else "free"}
+
+
 def gen_op(rng, spec, held, wallet, cash):
     r = rng.random()
     token = spec["token"]
     if r < 0.62 and spec["open"]:
+        tiny = [i for i in spec["instrs"] if i.get("tiny")]
+        if tiny and rng.random() < 0.6:
+            # market orders into the deep instrument: sizes of the book, the holding, round lots
+            ins = rng.choice(tiny)
+            side = rng.choice(("buy", "sell"))
+            levels = L.norm_levels(ins["asks"] if side == "buy" else ins["bids"], side)
+            q = rng.random()
+            if side == "sell" and ins["name"] in held and q < 0.5:
+                amount, acls = rng.choice(((held[ins["name"]], "held-exact"), (held[ins["name"]] + 1, "held+1"))) if q < 0.3 else \
+                    (max(Decimal(1), (held[ins["name"]] * Decimal(rng.randint(1, 99)) / 100).quantize(Decimal(1))), "held-part")
+            elif q < 0.8:
+                amount, acls = rng.choice((Decimal(1000), Decimal(100), 1, 20, Decimal(rng.randint(1, 5000)))), "lot"
+            else:
+                amount, acls = L.gen_amount(rng, levels, token)
+            return {"type": side, "name": ins["name"], "amount": amount}, f"market~tiny-{ins['tiny']}:{acls}"
         op, tag = L.gen_trade(rng, spec["instrs"], token, positions=held)
+        if any(i.get("tiny") and i["name"] == op.get("name") for i in spec["instrs"]):
+            tag = tag.replace(":", "~tiny:", 1)
         return op, tag
     kind = "deposit" if rng.random() < 0.5 else "withdraw"
     base = wallet if kind == "deposit" else cash
@@ -67,12 +158,16 @@ def gen_spec(rng):
     is_open = rng.random() < 0.8
     now = 60 * rng.randint(1, 200) + (0 if is_open else rng.randint(1, 59))
     instrs = L.gen_book(rng, token, now, crossed=False, rough=0.25, tie=0.35)
+    if rng.random() < 0.15:
+        instrs.append(gen_tiny_instr(rng, len(instrs) + 1, token, now))
     cash = Decimal(rng.choice(("1000", "1000", "50", "1", "0.01", "0")))
     wallet = Decimal(rng.choice(("5", "0.75", "120", "0")))
     positions, held = [], {}
     for i in instrs:
-        if rng.random() < (0.85 if "tie" in i else 0.6):
+        if rng.random() < (0.85 if ("tie" in i or "tiny" in i) else 0.6):
             a = Decimal(rng.randint(1, 300)) if token == "ETH" else Decimal(rng.randint(1, 3000)) / 10
+            if "tiny" in i:
+                a = Decimal(rng.choice((1000, 5000, rng.randint(100, 20000))))
             positions.append({"name": i["name"], "expiry": i["expiry"], "strike": i["strike"], "kind": i["kind"], "amount": str(a),
                               "avgBuy": "0.03", "buyAmt": str(a), "avgSell": "0", "sellAmt": "0"})
             held[i["name"]] = a
@@ -112,8 +207,14 @@ def run_sequence(ctx: Ctx, spec, reqs):
         dust = DUST * abs(wallet0) if t == "deposit" else Fraction(0)
         if nv1 > nv0 + dust + TOL * max(abs(nv0), 1):
             cause = "closed-bar-stale-cache" if (bar == "closed" and t in ("deposit", "withdraw")) else out
+            why = ""
+            # D-8: the one explained cause - the valuation rounds an off-grid mark past the price of the trade.  Anything else keeps the generic key.
+            expl = offgrid_gain(t, op, res, S["book"], spec["token"], nv1 - nv0, 4 * TOL * max(abs(nv0), abs(nv1), 1)) if out == "ok" else None
+            if expl:
+                cause, why = ("offgrid-mark-rounded-up" if t == "buy" else "offgrid-mark-rounded-down"), f" ({expl})"
             ctx.violate(f"deribit.{t}.value-created.{cause}",
-                        f"{t}({L.canon(L.op_json(op))}) [{out}] on a {bar} bar raised the account value {L.fmt(nv0)} -> {L.fmt(nv1)} {spec['token']}", srep)
+                        f"{t}({L.canon(L.op_json(op))}) [{out}] on a {bar} bar raised the account value {L.fmt(nv0)} -> {L.fmt(nv1)} {spec['token']}{why}",
+                        srep)
         # nothing becomes negative (a state that already was negative is reported where it arose)
         if S2["cash"] < 0 <= S["cash"]:
             ctx.violate(f"deribit.{t}.cash-negative", f"{t}({L.canon(L.op_json(op))}) [{out}] left market cash {L.fmt(S2['cash'])}", srep)
@@ -160,6 +261,14 @@ def directed():
         mk(360, True, [{"type": "withdraw", "amount": -5}]),
         mk(395, False, [{"type": "withdraw", "amount": Decimal("0.5")}]),
         mk(395, False, [{"type": "deposit", "amount": Decimal("0.5")}, {"type": "withdraw", "amount": Decimal("0.5")}]),
+        # D-8 (Lean: C03_deribit_offgrid_mark_buy_raises_value / _sell_raises_value): raw book bid <= mark <= ask with the mark off the 1e-6 grid
+        dict(mk(360, True, [{"type": "buy", "name": n, "amount": 1000}, {"type": "sell", "name": n, "amount": 1000}]), wallet="0", cash="105",
+             instrs=[dict(ins[0], mark=0.0000016, asks=[[0.0000016, 5000]], bids=[[0.000001, 50]])]),
+        dict(mk(360, True, [{"type": "sell", "name": n, "amount": 1000}, {"type": "buy", "name": n, "amount": 10}]), wallet="0", cash="105",
+             instrs=[dict(ins[0], mark=0.0000014, asks=[[0.000002, 50]], bids=[[0.0000014, 5000]])], positions=[dict(pos[0], amount="1000", buyAmt="1000")]),
+        # the same books with the mark ON the grid (0.000002 / 0.000001): nothing may be gained
+        dict(mk(360, True, [{"type": "buy", "name": n, "amount": 1000}, {"type": "sell", "name": n, "amount": 1000}]), wallet="0", cash="105",
+             instrs=[dict(ins[0], mark=0.000002, asks=[[0.000002, 5000]], bids=[[0.000002, 5000]])]),
     ]
 
 
